@@ -400,6 +400,23 @@ struct Runner
       for (uint64_t id : f.ids)
       {
         if (!seen.insert(id).second) return fail("statement-duplicated", J{}.unum("stmt", id).str("file", f.name));
+        if (have_last && id < last && !c.gmt && c.naming != 0)
+        {
+          // dated names in LOCAL time do not order files chronologically across a backward step of the zone offset (the
+          // repeated hour at the end of DST): pairs within two hours of an offset change are not judged
+          auto ts_of = [&](uint64_t sid) { for (auto const& st : written) if (st.id == sid) return st.ts; return uint64_t{0}; };
+          auto near_change = [](uint64_t ns)
+          {
+            auto off = [](time_t t) { tm d{}; localtime_r(&t, &d); return d.tm_gmtoff; };
+            time_t const t = static_cast<time_t>(ns / 1000000000ull);
+            return off(t - 7200) != off(t + 7200);
+          };
+          if (near_change(ts_of(id)) || near_change(ts_of(last)))
+          {
+            g_stats.add("file_order_pairs_not_judged_near_a_zone_offset_change");
+            continue;
+          }
+        }
         if (have_last && id < last)
           return fail("files-out-of-order", J{}.unum("stmt", id).unum("after_stmt", last).str("file", f.name).str("previous_file", last_file).str("naming", c.naming == 0 ? "Index" : c.naming == 1 ? "Date" : "DateAndTime"));
         last = id;
